@@ -1,14 +1,16 @@
-(* C20 -- what is false.
+(* C20 -- what is false: the PINNED schema ([edge_ok true], the tree before the two fixes).
 
-   F14 (pinned tree, before fix 6ce5d8e): a Connection stored in a channel's buffer
-   kept `channel: Some(<that channel>)`.  In the schema this is the edge
-   Channel --KField 2--> Channel, accepted by [edge_ok true] only.  With it the
-   type-rank descent fails, and a simulation stopped by a limit while a channel
-   has a backlog leaks the channel and every queued message.
+   F14 (fix 6ce5d8e): a Connection stored in a channel's buffer kept
+   `channel: Some(<that channel>)`: the edge Channel --KField 2--> Channel.  A simulation
+   stopped by a limit while a channel has a backlog leaks the channel and every queued message.
 
-   Finding candidate (current tree): TimerSlot.queue <-> TimerQueue.pending is a
-   strong cycle; a module dropped while one of its timers is pending leaves the
-   queue and the slot allocated (memory only: no user value hangs on them). *)
+   Timer cycle (fix 012bc88): TimerSlot.queue was an Arc<TimerQueue> while
+   TimerQueue.pending holds Arc<TimerSlot>: the edge Slot --KField 0--> Queue.  A module dropped
+   while one of its timers is pending leaves the queue and the slot allocated (232 bytes in 4
+   blocks per simulation on the real crate; no user value hangs on them, so only the
+   allocator counters of `implrun own` can see it).
+
+   With either edge the type-rank descent fails. *)
 From Coq Require Import List NArith Arith Bool Lia.
 From DesVerif Require Import Own.Heap Own.Frame Own.Inv Own.Shape Own.Rank Own.Check Own.Cycle Own.World Own.Model.
 Import ListNotations.
@@ -16,12 +18,17 @@ Local Open Scope nat_scope.
 
 (* the descent used by C20_all_freed_after_root_release does not hold of the pinned schema *)
 Lemma C20_pinned_schema_not_ranked :
-  exists a k b, edge_ok true a k b = true /\ is_conn k = false /\ timer_tag a = false /\
+  exists a k b, edge_ok true a k b = true /\ is_conn k = false /\
     ~ (trank b < trank a \/ (trank b = trank a /\ tdepth a < tdepth b)).
 Proof.
   exists TChannel, (KField 2), TChannel. repeat split; try reflexivity.
   cbn. lia.
 Qed.
+
+Lemma C20_pinned_timer_edge_not_ranked :
+  edge_ok true TSlot (KField 0) TQueue = true /\ edge_ok false TSlot (KField 0) TQueue = false /\
+  ~ (trank TQueue < trank TSlot \/ (trank TQueue = trank TSlot /\ tdepth TSlot < tdepth TQueue)).
+Proof. repeat split; try reflexivity. cbn. lia. Qed.
 
 Definition some_live (p : tag -> bool) (h : heap) : bool := existsb (fun ob => live ob && p (otag ob)) h.
 Definition is_channel (t : tag) : bool := match t with TChannel => true | _ => false end.
@@ -66,15 +73,22 @@ Lemma C20_fixed_schema_same_script_releases :
   alive_users (hp (release_all (w_st (fst (fst (stop_state false f14_script)))) (snd (fst (stop_state false f14_script))))) = 0%N.
 Proof. vm_compute. split; reflexivity. Qed.
 
-(* the statement "everything is freed" WITHOUT the timer carve-out is false of the current
-   schema: a module with a task sleeping on a timer, dropped before the timer fires *)
+(* Timer cycle, general form: in any count-consistent heap, a queue that lists a slot as
+   pending while the slot holds a strong handle back is never freed, whatever is released. *)
+Theorem C20_pinned_timer_cycle_stays_allocated : forall s roots q sl, inv s roots -> timer_pair (hp s) q sl ->
+  is_live (hp (release_all s roots)) q = true /\ is_live (hp (release_all s roots)) sl = true.
+Proof. exact timer_pair_survives. Qed.
+
+(* ... and a reachable instance: one module with a task sleeping on a timer, dropped before the
+   timer fires (max_itr(0)).  Pinned schema: the queue and the slot stay allocated although
+   nothing user-visible does. *)
 Definition timer_script : list N := [2; 0; 0; 0;  1;  0;0;0;0;1;1000;0;0;0;0;0;  0;  0]%N.
-Definition timer_st : st := Eval vm_compute in w_st (fst (fst (stop_state false timer_script))).
-Definition timer_roots : list nat := Eval vm_compute in snd (fst (stop_state false timer_script)).
+Definition timer_st : st := Eval vm_compute in w_st (fst (fst (stop_state true timer_script))).
+Definition timer_roots : list nat := Eval vm_compute in snd (fst (stop_state true timer_script)).
 Definition timer_after : heap := Eval vm_compute in hp (release_all timer_st timer_roots).
 
-Lemma C20_timer_cycle_leaks_memory :
-  exists s roots, good false s roots /\
+Lemma C20_pinned_timer_cycle_leaks_memory :
+  exists s roots, good true s roots /\
     (exists q qb, nth_error (hp (release_all s roots)) q = Some qb /\ live qb = true /\ is_queue (otag qb) = true) /\
     (exists sl sb, nth_error (hp (release_all s roots)) sl = Some sb /\ live sb = true /\ is_slot (otag sb) = true) /\
     alive_users (hp (release_all s roots)) = 0%N.
@@ -84,6 +98,12 @@ Proof.
   split; [|split]; try (apply some_live_spec; vm_compute; reflexivity). vm_compute. reflexivity.
 Qed.
 
-Lemma C20_timer_witness_is_reached :
-  w_st (fst (fst (stop_state false timer_script))) = timer_st /\ snd (fst (stop_state false timer_script)) = timer_roots.
+Lemma C20_pinned_timer_witness_is_reached :
+  w_st (fst (fst (stop_state true timer_script))) = timer_st /\ snd (fst (stop_state true timer_script)) = timer_roots.
+Proof. vm_compute. split; reflexivity. Qed.
+
+(* the same script on the current schema: the checker accepts and no object at all is left *)
+Lemma C20_fixed_schema_timer_script_releases :
+  goodb false (w_st (fst (fst (stop_state false timer_script)))) (snd (fst (stop_state false timer_script))) = true /\
+  existsb live (hp (release_all (w_st (fst (fst (stop_state false timer_script)))) (snd (fst (stop_state false timer_script))))) = false.
 Proof. vm_compute. split; reflexivity. Qed.
